@@ -28,14 +28,18 @@ Definition max_reply_payload (cs_msize : N) : N :=
   let m := if cs_msize =? 0 then p9_maximumLength else cs_msize in
   if m <? replyOverhead then 0 else m - replyOverhead.
 
+Definition ENOBUFS : N := 105.
+Definition EINVAL : N := 22.
+Definition EFAULT : N := 14.
+
 Inductive sreply :=
-| SRlerror                 (* Rlerror, 11 bytes on the wire *)
+| SRlerror (errno : N)     (* Rlerror, 11 bytes on the wire *)
 | SData (n : N)            (* Rread / Rreaddir with n payload bytes *)
 | SPanic.                  (* run-time panic in the handler (answered Rlerror EFAULT by connState.handle) *)
 
 Definition sreply_frame (r : sreply) : N :=
   match r with
-  | SRlerror | SPanic => rlerrorFrame
+  | SRlerror _ | SPanic => rlerrorFrame
   | SData n => replyOverhead + n
   end.
 
@@ -43,25 +47,66 @@ Definition sreply_frame (r : sreply) : N :=
     the requested offset on (what ReadAt returns is min(len(p), avail)).
     [cs_msize] = connState.messageSize = length of the pooled read buffers. *)
 Definition tread_handle (cs_msize count avail : N) : sreply :=
-  if p9_maximumLength <? count then SRlerror                       (* ENOBUFS *)
+  if p9_maximumLength <? count then SRlerror ENOBUFS
   else
     let c := N.min count (max_reply_payload cs_msize) in
     if cs_msize =? 0 then SPanic                                   (* no Tversion yet: readBufPool.New is nil *)
     else if cs_msize <? c then SPanic                              (* dataBuf[:count] beyond the buffer *)
     else SData (N.min c avail).
 
-(** tread.handle on an xattr fid (Txattrwalk bound it to a value of [vlen] bytes): Count 0 is only
-    accepted for an empty value, offset+Count (the unclamped Count) must lie within the value, then
-    copy(dataBuf[:count], buf[Offset:]) with the clamped count *)
+(** tread.handle on an xattr fid (Txattrwalk bound it to a value of [vlen] bytes); [off] is the
+    64-bit Offset as decoded.  Count 0 is only accepted for an empty value; then (commit 7f754bf)
+    [size := uint64(len(buf)); t.Offset > size || uint64(t.Count) > size - t.Offset] => EINVAL -- the
+    subtraction cannot wrap because Offset <= size at that point; then
+    copy(dataBuf[:count], buf[Offset:]) with the clamped count (both slice expressions can panic). *)
 Definition txread_handle (cs_msize count off vlen : N) : sreply :=
-  if p9_maximumLength <? count then SRlerror
+  if p9_maximumLength <? count then SRlerror ENOBUFS
   else
     let c := N.min count (max_reply_payload cs_msize) in
     if cs_msize =? 0 then SPanic
-    else if count =? 0 then (if vlen =? 0 then SData 0 else SRlerror)      (* EINVAL *)
-    else if vlen <? off + count then SRlerror                               (* EINVAL *)
+    else if count =? 0 then (if vlen =? 0 then SData 0 else SRlerror EINVAL)
+    else if (vlen <? off) || (vlen - off <? count) then SRlerror EINVAL
     else if cs_msize <? c then SPanic                                       (* dataBuf[:count] *)
+    else if vlen <? off then SPanic                                         (* buf[Offset:] *)
     else SData (N.min c (vlen - off)).
+
+(** what the code did before 7f754bf, kept to state what was wrong: the 64-bit sum wraps *)
+Definition u64 : N := 18446744073709551616.
+Definition txread_handle_wrapping (cs_msize count off vlen : N) : sreply :=
+  if p9_maximumLength <? count then SRlerror ENOBUFS
+  else
+    let c := N.min count (max_reply_payload cs_msize) in
+    if cs_msize =? 0 then SPanic
+    else if count =? 0 then (if vlen =? 0 then SData 0 else SRlerror EINVAL)
+    else if vlen <? (off + count) mod u64 then SRlerror EINVAL
+    else if cs_msize <? c then SPanic
+    else if vlen <? off then SPanic
+    else SData (N.min c (vlen - off)).
+
+(** ** the session: which msize is in force.  tversion.handle stores min(msize, 4 MiB) in
+    connState.messageSize and announces it -- unless msize is 0 or the version string is not a
+    9P2000.L one, when it answers Rversion{0, "unknown"} and leaves the state alone.  [ok] = the
+    version string is acceptable (C12's parser; here an input). *)
+Inductive tv := TV (msize : N) (ok : bool).
+
+Definition tversion_step (cs : N) (t : tv) : N * N :=        (* new messageSize, msize in the Rversion *)
+  match t with
+  | TV m ok => if (m =? 0) || negb ok then (cs, 0) else (N.min m p9_maximumLength, N.min m p9_maximumLength)
+  end.
+
+Fixpoint run_hist (cs : N) (h : list tv) : N * list N :=
+  match h with
+  | [] => (cs, [])
+  | t :: r => let '(cs1, a) := tversion_step cs t in let '(cs2, l) := run_hist cs1 r in (cs2, a :: l)
+  end.
+
+(** "the msize it announced": the msize of the last Rversion that announced one (an "unknown"
+    Rversion carries 0 and changes nothing); [dflt] when there was none *)
+Fixpoint last_announced (dflt : N) (replies : list N) : N :=
+  match replies with
+  | [] => dflt
+  | a :: r => last_announced (if a =? 0 then dflt else a) r
+  end.
 
 (** rreaddir.encode: entries are appended while the running total stays <= Count;
     [sizes] = encoded size of each Dirent the backend returned *)
